@@ -774,6 +774,11 @@ zix_btree_remove(ZixBTree* const     t,
       // Found in internal node
       if (!(st = zix_btree_replace_value(t, n, i, out))) {
         // Replaced hole with a value from a direct child
+        if (t->cmp(n->data.inode.vals[i], e, t->cmp_data) < 0) {
+          // Replaced with the predecessor, advance to the successor
+          zix_btree_iter_increment(ti);
+        }
+
         --t->size;
         return st;
       }
